@@ -1,7 +1,7 @@
 (* FaultISFacts3.v -- the IndexStart invariant along histories with injected
    faults, and the observable results of such histories computed from bytes.
      start_facts      what a call needs at its start, from the invariant FInv
-                      of fault_safety (Live / Seal mode)
+                      of fault_safety (Live mode)
      fault_step_FJ    FJH is kept by every step
      fault_hist_bytes every history has a byte-level run at whose end the WAL
                       is linked (FHL) and FJH holds
@@ -56,24 +56,15 @@ Lemma start_facts c nb w d nom defer :
   Mode c nb w d nom defer -> st_closed w = false -> st_failed w = false ->
   ids_ok w /\ rot_facts w d /\ trunc_facts w d.
 Proof.
-  intros [(A & _)|(_ & [((HL & Hst) & _)|[((tw & Et & Hpos & Hro & HL & Hsu) & _)|(A & _)]])] Hcl Hfa; try congruence.
-  - (* Live *)
-    destruct (LInv_view _ _ _ _ HL) as (S & t & f0 & tw & V).
+  intros [(A & _)|(_ & [((HL & Hst) & _)|(A & _)])] Hcl Hfa; try congruence.
+  (* Live *)
+  - destruct (LInv_view _ _ _ _ HL) as (S & t & f0 & tw & V).
     destruct (lview_start c nb w w d S t f0 tw V eq_refl eq_refl eq_refl) as (H1 & H2 & H3).
     + intros f Ef Hse. destruct (df_pend f) as [p|] eqn:Ep; [|reflexivity]. exfalso.
       destruct (Hst _ _ _ Ef Ep) as [(t2 & Ht2 & _ & (Hz & _))|K]; [congruence|].
       apply (K (persistent w) t (live_meta _ _ _ _ HL)); [|reflexivity].
       cbn [persistent ps_segs]. rewrite (lv_segs _ _ _ _ _ _ _ _ V). apply in_or_app. right. left. reflexivity.
     + split; [exact H1|]. split; [apply H3; apply (lv_rot _ _ _ _ _ _ _ _ V)|exact H2].
-  - (* Seal *)
-    destruct (LInv_view _ _ _ _ HL) as (S & t & f0 & tw0 & V).
-    destruct (lview_start c nb _ w d S t f0 tw0 V eq_refl eq_refl eq_refl) as (H1 & H2 & _).
-    + intros f Ef _. destruct (df_pend f) as [p|] eqn:Ep; [|reflexivity]. exfalso.
-      pose proof (live_meta _ _ _ _ HL) as Hm.
-      apply (Hsu _ _ _ Ef Ep _ t Hm); [|reflexivity].
-      cbn [persistent ps_segs set_rot st_segs]. change (st_segs w) with (st_segs (set_rot w (Some (ws_index_start tw)))).
-      rewrite (lv_segs _ _ _ _ _ _ _ _ V). apply in_or_app. right. left. reflexivity.
-    + split; [exact H1|]. split; [|exact H2]. intros i Hi. congruence.
 Qed.
 
 (* the reopen hypotheses, from the structural invariant of the adopted disk *)
@@ -136,9 +127,8 @@ Proof.
   { intros k Kfail Kok.
     destruct (st_failed (ss_wal s)) eqn:Efa.
     - assert (Hro : st_rotate (ss_wal s) = None).
-      { destruct HM as [(A & _)|(_ & [((HL & _) & _)|[((tw & _ & _ & _ & HL & _) & _)|(_ & A & _)]])]; try congruence.
-        - destruct HL as (_ & K & _). congruence.
-        - destruct HL as (_ & K & _). cbn in K. congruence. }
+      { destruct HM as [(A & _)|(_ & [((HL & _) & _)|(_ & A & _)])]; try congruence.
+        destruct HL as (_ & K & _). congruence. }
       unfold settle. rewrite Hro. apply Kfail; assumption.
     - destruct (start_facts c nb _ _ nom defer HM Hcl Efa) as (Hids & Hrf & Htf).
       destruct (settle_wlink c s bd Hc HW ltac:(lia)) as ((bd1 & _ & HW1) & Hn1).
@@ -170,8 +160,8 @@ Proof.
     cbn zeta in Eg. destruct (negb (key_ok k)); [inversion Eg; subst; exact HJ|].
     destruct (io _ _) as [ok e1] eqn:Eio.
     assert (Hx : FJ (ss_wal s) (e_disk e1)).
-    { destruct (io_cases _ _ _ _ Eio eq_refl) as [(_ & Ed)|(_ & Ed)]; rewrite Ed; [|exact HJ].
-      eapply FJ_files; [| |exact HJ]; reflexivity. }
+    { destruct (io_cases3 _ _ _ _ Eio) as [(_ & Ed)|[(_ & Ed)|(_ & _ & Ed)]]; rewrite Ed; [|exact HJ|];
+        (eapply FJ_files; [| |exact HJ]; reflexivity). }
     destruct ok; inversion Eg; subst; exact Hx.
   - destruct (get_stable (ss_wal s) k (ss_env s)) as [r0 e'] eqn:Eg. inversion H; subst. cbn [ss_wal ss_env].
     unfold get_stable in Eg. destruct (st_closed (ss_wal s)); inversion Eg; subst; exact HJ.
